@@ -182,3 +182,13 @@ def spec_padded(tbl, data4, partner4, vec_axis, req, rules, fills):
                                                         or (swap and not rev and vec_axis != a))) else 1
                 out[f, i, j] = [sign * v for v in val]
     return out, mask
+
+
+def table_axes(tbl):
+    """the axis names that appear as keys in a face-connection table, as a list"""
+    out = []
+    for links in fc_arg(tbl)["face"].values():
+        for ax in links:
+            if ax not in out:
+                out.append(ax)
+    return out
